@@ -1556,3 +1556,29 @@ pub fn second_reason_native(_x: u8) -> u32 {
     assert!(conn.state.is_drained(), "a stateless reset ends the drain period");
     1
 }
+
+/// Native replay body for the probe clause of `e2_detect_lost_iteration_slice` (C12 / C13), and demonstration
+/// for finding 23: an MTU probe is in flight in the Data space with packet number 5; a Handshake packet that
+/// happens to carry the same number is overdue.  Loss detection for the HANDSHAKE space must declare that
+/// Handshake packet lost and leave the probe - a packet of another space - alone.
+pub fn lost_probe_other_space_native(_x: u8) -> u32 {
+    let mut conn = mk_established(false);
+    let now = crate::verif::mk_instant(60, 0).unwrap();
+    conn.path.rtt = RttEstimator::new(Duration::from_millis(100));
+    conn.spaces[SpaceId::Handshake].crypto = Some(nullcrypto::keys());
+    // the probe: Data space, packet number 5
+    let size = conn.path.mtud.poll_transmit(now, 5).expect("MTU discovery wants to probe");
+    assert!(conn.path.mtud.in_flight_mtu_probe() == Some(5));
+    let probe = SentPacket { path_generation: 0, time_sent: now, size, ack_eliciting: true, largest_acked: None, retransmits: ThinRetransmits::default(), stream_frames: Default::default() };
+    paths::in_flight_insert(&mut conn.path, &probe);
+    conn.spaces[SpaceId::Data].sent(5, probe);
+    // an old Handshake packet with the same number, and a newer acknowledged one
+    let old = SentPacket { path_generation: 0, time_sent: now - Duration::from_secs(5), size: 300, ack_eliciting: true, largest_acked: None, retransmits: ThinRetransmits::default(), stream_frames: Default::default() };
+    paths::in_flight_insert(&mut conn.path, &old);
+    conn.spaces[SpaceId::Handshake].sent(5, old);
+    conn.spaces[SpaceId::Handshake].largest_acked_packet = Some(6);
+    conn.detect_lost_packets(now, SpaceId::Handshake, true);
+    assert!(conn.spaces[SpaceId::Handshake].sent_packets.get(5).is_none(), "the overdue Handshake packet was not declared lost (it was taken for the Data-space MTU probe)");
+    assert!(conn.spaces[SpaceId::Data].sent_packets.get(5).is_some() && conn.path.mtud.in_flight_mtu_probe() == Some(5), "an MTU probe that is still in flight was declared lost by loss detection for another packet space");
+    1
+}
